@@ -382,6 +382,22 @@ def main(argv):
                      r.tail())
     ck.add_model(r, 'EnvVars: all op sequences <= %d over %d keys' %
                  (mo, len(KEYS)))
+    # the same invariant for ANY number of operations: inductive check with
+    # Apalache over the mutators of EnvVarsCore.tla (base case + step)
+    from engine import apalache
+    for what, args in (
+            ('base', ['--cinit=CInit', '--init=Init0', '--next=IndNext',
+                      '--inv=IndInv', '--length=0']),
+            ('step', ['--cinit=CInit', '--init=IndInit', '--next=IndNext',
+                      '--inv=IndInv', '--length=1'])):
+        st_, secs, tail = apalache('EnvVars_Ind', args)
+        ck.notes.setdefault('apalache_runs', []).append(
+            {'what': 'EnvVars_Ind %s: ChangesReproduceCurrent inductive over '
+             'all mutators, 3 keys, 2 values' % what, 'status': st_,
+             'wall_s': round(secs, 1)})
+        if st_ == 'error':
+            ck.machinery('EnvVars_Ind (%s) fails: the design model is not '
+                         'inductive\n%s' % (what, tail))
     n, depth = (1500, 8) if ck.quick else (40000, 12)
     g = tlc_ok('EnvVars_Gen', ecfg('gen', depth, n, ck.seed), timeout=2400)
     hists = [p for p in g.prints if isinstance(p, list) and p and
